@@ -34,6 +34,8 @@ def run(tier="quick"):
     prog = facts.extract(units=UNITS + ["obj.c", "objpair.c"])
     fns = LR.iface_functions(prog, "vector")
     names = {f.name for f in fns}
+    chk.rule("A1", "the argument of an ASSERT / REQUIRE only observes (no store disappears with DEBUG=0)")
+    chk.count("assertion_arguments_with_calls", LR.check_assert_purity(chk, prog, ["array.c", "linked_list.c", "dlinked_list.c"], "A1"))
     nord = LR.check_ordering(chk, prog, [f for f in fns if LR.short_slot(prog, f) in ("insert", "find", "contains") or "find" in f.name])
     nrm = LR.check_remove_by_equality(chk, prog, [f for f in fns if LR.short_slot(prog, f) == "remove"])
     nd = 0
